@@ -477,6 +477,45 @@ func (u *Unit) lockOp(st *State, instr ssa.Instruction, v Value, mode int, acqui
 	u.event(st, "unlock:"+name, []Value{base})
 }
 
+// checkCreatedInvariants: every struct allocated by this activation that
+// carries lock invariants must satisfy them when the activation ends (or ends a
+// loop iteration): lock invariants are assumed at every Lock, so somebody has to
+// establish them first - the code that creates the object.
+func (u *Unit) checkCreatedInvariants(st *State, where string, at ssa.Instruction, from int) {
+	for k, co := range st.created {
+		if k < from {
+			continue
+		}
+		for _, li := range u.eng.spec.LockInvs {
+			if li.Struct != co.sname {
+				continue
+			}
+			env := u.newEnv(st)
+			env.names = map[string]SV{li.This: {V: co.ref, Typ: types.NewPointer(u.eng.lookupStruct(u.pkg, li.Struct))}}
+			name := fmt.Sprintf("%s.inv.%s.%s.%s#%d", where, li.Struct, li.Mu, labelOr(li.C, "inv"), u.siteOrdinalAlloc(co.at))
+			u.addOblig(st, name, li.C.Text, li.C.Props, u.evalBool(env, li.C.Expr), at, "lock invariant established for the "+li.Struct+" this function creates: "+li.C.Text)
+		}
+	}
+}
+
+// siteOrdinalAlloc numbers the struct allocations of a function in source order.
+func (u *Unit) siteOrdinalAlloc(in ssa.Instruction) int {
+	fn := in.Parent()
+	n := 0
+	for _, b := range fn.Blocks {
+		for _, i := range b.Instrs {
+			if a, ok := i.(*ssa.Alloc); ok && a.Heap {
+				if _, isS := a.Type().(*types.Pointer).Elem().Underlying().(*types.Struct); isS {
+					if a.Pos() < in.Pos() {
+						n++
+					}
+				}
+			}
+		}
+	}
+	return n + 1
+}
+
 // checkSectionAsserts evaluates `at unlock:NAME assert` clauses: the
 // critical-section contract, relating acq(...) to the state at release.
 func (u *Unit) checkSectionAsserts(st *State, instr ssa.Instruction, name string) {
